@@ -188,6 +188,7 @@ namespace
         virtual void  queries()                                                  = 0;
         virtual void* proxy_an(std::size_t sz, std::size_t al)                   = 0;
         virtual void  proxy_dn(void* p, std::size_t sz, std::size_t al)          = 0;
+        virtual void* proxy_moved_an(std::size_t sz, std::size_t al)             = 0;
         virtual bool  composable()                                               = 0;
     };
     template <class S>
@@ -258,6 +259,17 @@ namespace
             auto l = s.lock();
             return fm::allocator_traits<typename S::allocator_type>::allocate_node(*l, sz, al);
         }
+        // the proxy is handed on by move (returned from a helper): the moved-to proxy must keep the lock
+        void* proxy_moved_an(std::size_t sz, std::size_t al) override
+        {
+            using proxy = decltype(s.lock());
+            auto l2     = [&]
+            {
+                auto l = s.lock();
+                return proxy(std::move(l)); // l dies here, l2 lives on
+            }();
+            return fm::allocator_traits<typename S::allocator_type>::allocate_node(*l2, sz, al);
+        }
         void proxy_dn(void* p, std::size_t sz, std::size_t al) override
         {
             auto l = s.lock();
@@ -309,6 +321,7 @@ namespace
         }
         st.queries();
         log_alloc(st.proxy_an(node, 8), false, 1, "proxy", mine);
+        log_alloc(st.proxy_moved_an(node, 8), false, 1, "proxy_moved", mine);
         bool use_try = st.composable();
         while (!mine.empty())
         {
@@ -347,7 +360,7 @@ namespace
                             else if (k < 8 && st.composable())
                                 log_alloc(st.tn(node, 8), false, 1, "tn", mine);
                             else if (k < 9)
-                                log_alloc(st.proxy_an(node, 8), false, 1, "proxy", mine);
+                                log_alloc(rng() % 2 ? st.proxy_an(node, 8) : st.proxy_moved_an(node, 8), false, 1, "proxy", mine);
                             else
                                 st.queries();
                         }
